@@ -215,6 +215,22 @@ def check_hazards(rule, kind, root=None):
                             out_written = True
                         if o.name == "0":
                             x0_written = True
+        # every path of an op builder defines its output register (a path that leaves it
+        # untouched returns whatever the register held: right only if the allocator
+        # happened to alias it with the wanted operand)
+        if outp and name in op_builders(builders) and not b.helper_calls:
+            for path in paths:
+                wrote = False
+                last = None
+                for i in path:
+                    if isinstance(i, str):
+                        continue
+                    last = ins[i]
+                    if any(o.kind == "vec" and o.name == "T:%s" % outp for o in M.effect(ins[i]).writes):
+                        wrote = True
+                if not wrote and last is not None:
+                    labels = [repr(ins[i]) for i in path if not isinstance(i, str) and M.effect(ins[i]).kind in ("jmp", "jcc")]
+                    found.add((b.fn["ln"], "undef", "the path through %s never writes the output register `%s`" % (" , ".join(labels[:4]) or "the straight line", outp)))
         if found:
             for ln, k, msg in sorted(found):
                 rule.bad("%s|%s|%s|%s" % (kind, name, k, msg[:40]), "%s %s: %s" % (kind, name, msg), "%s:%d" % (p, ln))
